@@ -22,6 +22,9 @@ pub enum Op {
     CInit { w: usize },
     CUpd { w: usize },
     Probs { w: usize },
+    /// drop worker w and take a new one from the same tokenizer (a new worker starts empty,
+    /// whatever the dropped ones held)
+    Renew { w: usize },
     /// reset s1; tokenize; reset s2; tokenize; emit the pair (C12)
     Respace { w: usize, s1: Vec<u32>, s2: Vec<u32> },
 }
@@ -45,6 +48,7 @@ impl Op {
             Op::CInit { w } => json!({"op": "cinit", "w": w}),
             Op::CUpd { w } => json!({"op": "cupd", "w": w}),
             Op::Probs { w } => json!({"op": "probs", "w": w}),
+            Op::Renew { w } => json!({"op": "renew", "w": w}),
             Op::Respace { w, s1, s2 } => json!({"op": "respace", "w": w, "s1": s1, "s2": s2}),
         }
     }
@@ -58,6 +62,7 @@ impl Op {
             "cinit" => Op::CInit { w },
             "cupd" => Op::CUpd { w },
             "probs" => Op::Probs { w },
+            "renew" => Op::Renew { w },
             "respace" => Op::Respace { w, s1: seq(&v["s1"]), s2: seq(&v["s2"]) },
             o => panic!("unknown op {o}"),
         }
@@ -126,6 +131,13 @@ pub fn run_ops_iso(tok: &Tokenizer, nw: usize, ops: &[Op], lattice: bool, wbase:
                 Op::Read { w } => {
                     let wk = &workers[*w - 1];
                     ev.push(json!({"ev": "read", "w": w + wbase, "toks": tokens_json(wk)}));
+                }
+                Op::Renew { w } => {
+                    // the old worker is dropped first, then a new one is requested
+                    let fresh = { let old = std::mem::replace(&mut workers[*w - 1], tok.new_worker()); drop(old); tok.new_worker() };
+                    workers[*w - 1] = fresh;
+                    let wk = &workers[*w - 1];
+                    ev.push(json!({"ev": "renew", "w": w + wbase, "n": wk.num_tokens()}));
                 }
                 Op::CInit { w } => {
                     workers[*w - 1].init_connid_counter();
@@ -290,6 +302,16 @@ pub fn gen_session(rng: &mut Rng, cfg: &GenCfg, nops: usize, max_len: usize, lat
             16 => {
                 if has_cnt[w - 1] {
                     ops.push(Op::Probs { w });
+                }
+            }
+            17 => {
+                // a new worker in place of this one; it is often used WITHOUT a reset first
+                ops.push(Op::Renew { w });
+                has_cnt[w - 1] = false;
+                tokd[w - 1] = false;
+                if rng.chance(2, 3) {
+                    ops.push(Op::Tok { w });
+                    ops.push(Op::Read { w });
                 }
             }
             _ => {
